@@ -73,6 +73,7 @@ type TxEv struct {
 	Tx     int     `json:"tx"`     // events with the same id name the same transaction
 	Status int     `json:"status"` // receipt status; the client returns an error unless it is 1
 	Head   *Int    `json:"head"`   // head served to this event's LatestBlock (null: no number)
+	HFail  string  `json:"hfail,omitempty"` // how this event's LatestBlock fails ("" | "err" | "err0")
 	RBlk   *Int    `json:"rblk"`   // the receipt's blockNumber (null: in no block)
 	Logs   []TxLog `json:"logs"`
 }
@@ -324,7 +325,19 @@ func (c mBtcConn) GetBlockVerboseTx(*chainhash.Hash) (*btcjson.GetBlockVerboseTx
 type mBtcHandler struct{ w *world }
 
 func (h mBtcHandler) HandleEvents(b *big.Int) error {
-	h.w.add(h.w.cur(), cp(b))
+	i := h.w.cur()
+	if i >= 0 {
+		h.w.mu.Lock()
+		n, cancel := len(h.w.got[i]), h.w.cancel[i]
+		h.w.mu.Unlock()
+		if n >= maxHandled { // see btcHandler
+			if cancel != nil {
+				cancel()
+			}
+			return errors.New("enough")
+		}
+	}
+	h.w.add(i, cp(b))
 	return nil
 }
 
@@ -533,12 +546,26 @@ func runMulti(c Case) [][]Int {
 
 type sbConn struct {
 	fin   uint32
+	fail  string // how the finalized-head lookup fails (see failModes)
 	evts  []*parser.Event
 	asked []uint64 // k-th GetBlockHash call -> block number
 }
 
-func (s *sbConn) GetFinalizedHead() (types.Hash, error) { return types.Hash{0xf}, nil }
-func (s *sbConn) GetBlock(types.Hash) (*types.SignedBlock, error) {
+func (s *sbConn) GetFinalizedHead() (types.Hash, error) {
+	if s.fail == "hash" {
+		return types.Hash{}, errRPC
+	}
+	return types.Hash{0xf}, nil
+}
+func (s *sbConn) GetBlock(h types.Hash) (*types.SignedBlock, error) {
+	switch {
+	case h[0] != 0xf:
+		return nil, errors.New("block not found")
+	case s.fail == "err":
+		return nil, errRPC
+	case s.fail == "err0":
+		return &types.SignedBlock{}, errRPC
+	}
 	return &types.SignedBlock{Block: types.Block{Header: types.Header{Number: types.BlockNumber(s.fin)}}}, nil
 }
 func (s *sbConn) GetBlockHash(n uint64) (types.Hash, error) {
@@ -596,7 +623,7 @@ func sentNonces(ch chan []*message.Message) map[uint64]int {
 }
 
 func runSubBatch(c Case) []Int {
-	conn := &sbConn{fin: u32(c.Head, "finalized head")}
+	conn := &sbConn{fin: u32(c.Head, "finalized head"), fail: c.Fin}
 	for i, b := range c.Blks {
 		dest := uint8(2)
 		if i < len(c.Dests) {
@@ -728,6 +755,15 @@ func (c *txClient) LatestBlock() (*big.Int, error) {
 	e := c.cur
 	if e < 0 {
 		e = 0
+	}
+	if e < len(c.evs) {
+		switch c.evs[e].HFail {
+		case "":
+		case "err0":
+			return new(big.Int), errRPC
+		default:
+			return nil, errRPC
+		}
 	}
 	if e >= len(c.evs) || c.evs[e].Head == nil {
 		return nil, nil
